@@ -55,6 +55,20 @@ func (ex *Exec) invoke(st *State, th *Thread, f *Frame, fnv Value, args []Value,
 		return ex.nativeClosure(st, th, f, cl, args, call, isDefer)
 	}
 	fn := cl.Fn
+	if len(ex.cfg.Replace) > 0 {
+		if rn, ok := ex.cfg.Replace[fn.String()]; ok {
+			hp := ex.p.pkgs[ex.cfg.HarnessPkg]
+			var rf *ssa.Function
+			if hp != nil {
+				rf = hp.Func(rn)
+			}
+			if rf == nil {
+				unsupported("replacement %s for %s not found", rn, fn)
+			}
+			ex.rep.Stubs[fn.String()+" summarised by its specification "+rn+" (proved by the lemma obligations of this check)"] = true
+			return ex.enter(st, th, rf, args, nil, call, isDefer)
+		}
+	}
 	if extra, handled := ex.intercept(st, th, f, fn, args, call, isDefer); handled {
 		return extra
 	}
